@@ -729,3 +729,76 @@ func wrapsAnotherError(call *ssa.Call) bool {
 	}
 	return false
 }
+
+// MadeSize is a composition rule: the structure returned by maker(n) (an int → *T constructor, n >= minN) is
+// written by writer in exactly n bytes, on every outcome of both. (newStuffingAdaptationField(n) must produce an
+// adaptation field that occupies n bytes — otherwise WriteData's packets are not exactly filled.)
+func (c *Checker) MadeSize(r *report.Report, name string, maker, writer *ssa.Function, minN int64) {
+	if maker == nil || writer == nil {
+		r.Unknown("A2", name, "", "maker or writer function not found")
+		return
+	}
+	w := writerParam(writer)
+	if w == "" || len(maker.Params) != 1 {
+		r.Unknown("A2", name, c.P.Pos(writer.Pos()), "unexpected signatures")
+		return
+	}
+	st := c.IP.Harness(writer)
+	n := st.Symbolic(maker.Params[0].Type(), "$"+maker.Params[0].Name())
+	if n.K != pathint.KInt {
+		r.Unknown("A2", name, c.P.Pos(maker.Pos()), "maker parameter is not an integer")
+		return
+	}
+	st.Facts = append(st.Facts, lin.Fact{F: n.F.AddC(-minN)})
+	var wv pathint.Val
+	for _, p := range writer.Params {
+		if "$"+p.Name() == w {
+			wv = st.Symbolic(p.Type(), w)
+		}
+	}
+	in := st.Bits(wv.O)
+	bad := map[string]string{}
+	pairs, okN := 0, 0
+	for _, ma := range st.Apply(maker, []pathint.Val{n}, "<make>") {
+		if len(ma.Results) == 0 {
+			continue
+		}
+		var wargs []pathint.Val
+		for _, p := range writer.Params {
+			if "$"+p.Name() == w {
+				wargs = append(wargs, wv)
+			} else {
+				wargs = append(wargs, ma.Results[0])
+			}
+		}
+		for _, wa := range ma.St.Apply(writer, wargs, "<write>") {
+			if wa.Outcome.ErrNil == pathint.No {
+				continue
+			}
+			pairs++
+			delta := wa.St.Bits(wv.O).Sub(in)
+			same, d2, _ := c.sameUnder(wa.St, delta, n.F.Scale(8))
+			if same {
+				okN++
+				continue
+			}
+			bad[guardOf(ma.Outcome)] = fmt.Sprintf("%s(n) is written in %s bits, not 8·n", maker.Name(), clean(d2.String()))
+		}
+	}
+	pos := c.P.Pos(maker.Pos())
+	switch {
+	case pairs == 0:
+		r.Unknown("A2", name, pos, "no compatible maker/writer outcome pair")
+	case len(bad) == 0:
+		r.OK("A2", name, pos, fmt.Sprintf("%d outcome pairs: %s(n) occupies exactly n bytes when written by %s (n >= %d)", okN, maker.Name(), writer.Name(), minN))
+	default:
+		var gs []string
+		for g := range bad {
+			gs = append(gs, g)
+		}
+		sort.Strings(gs)
+		for _, g := range gs {
+			r.Bad("A2", name+"/when{"+g+"}", pos, bad[g])
+		}
+	}
+}
